@@ -29,11 +29,13 @@ def describe_origin(fn, steps):
     k = last[0]
     proj = ""
     for s in steps:
+        one = ""
         for pr in (s[2] if len(s) > 2 else []):
             if pr[0] == "f":
-                proj += "." + (pr[2] or str(pr[1]))
+                one += "." + (pr[2] or str(pr[1]))
             elif pr[0] == "dc":
-                proj += " as " + pr[1]
+                one += " as " + pr[1]
+        proj = one + proj
     if k == "call":
         return "call:%s%s" % (last[1].name, proj)
     if k == "arg":
@@ -622,9 +624,29 @@ def verify(prog, fn, bb, sink, spec, _facts_override=None):
         # `for i in 0..N { .. op(i) }`: the index is the payload of Range::next
         op = sink_operand(sink, spec["which"])
         steps = fn.origin(op) if op is not None else None
-        if steps and steps[-1][0] == "call" and re.search(r"Range<.*Iterator>::next$", steps[-1][1].callee or ""):
+        if steps and steps[-1][0] == "call" and re.search(r"Iterator for core::ops::range::Range<A>>::next$|Range<.*Iterator>::next$", steps[-1][1].callee or ""):
             return True, "index is produced by a Range iterator (loop index)"
         return False, "index is not a range loop variable (%s)" % describe_origin(fn, steps)
+    if k == "route_limit":
+        # Router::finalize refuses (panics on) a route whose number of `:param` segments exceeds Params::LIMIT
+        lim = [c for kk, c in prog.consts.items() if kk.endswith("path::Params::LIMIT")]
+        limit = const_int(lim[0]) if lim else None
+        for c in fn.calls():
+            if not (re.search(r"core::panicking::", c.callee or "") and ("assert" in c.mx or "panic" in c.mx)):
+                continue
+            for f in facts_at(fn, prog, c.bb):
+                if f.kind != "cmp":
+                    continue
+                a, b = f.lhs, f.rhs
+                da, db = describe_origin(fn, a), describe_origin(fn, b)
+                for x, y, op in ((a, b, f.op), (b, a, FLIP[f.op])):
+                    if x and x[-1][0] == "call" and x[-1][1].name == "n_params" and "RouteSegments" in (x[-1][1].callee or "") and y and y[-1][0] == "const":
+                        cv = const_int(y[-1][1])
+                        # the panic is reached when n_params > LIMIT (or >= LIMIT + 1)
+                        if limit is not None and ((op == "Gt" and cv == limit) or (op == "Ge" and cv == limit + 1)):
+                            if bb is None or not fn.dominates(bb, c.bb):
+                                return True, "finalize() panics when route.n_params() > %d = Params::LIMIT, before the final router is built" % limit
+        return False, "Router::finalize does not refuse routes with more than Params::LIMIT (%s) `:param` segments" % limit
     if k == "utf8_checked":
         # on every path to this block a from_utf8-style validation (regex `call`) succeeded
         rx = spec.get("call", r"core::str::converts::from_utf8$")
